@@ -53,3 +53,32 @@ def check(chk: Check, budget: int):
             chk.violation({"listing": item, "width": c["width"], "cap": c["cap"]},
                           f"leaf listing of {item!r} (page width {c['width']}, cap {c['cap']}): the specification prints {want}, the tool printed {got.splitlines()}")
     chk.extra["listing"] = {"universe": len(cases), "replayed": n, "capped": len(capped), "with_cut_lines": len(cut)}
+
+
+# ---- directory listings (spec/Table.tla, info.py InfoTable) ------------------------------------------------------
+TABLE_INVARIANTS = ["TypeOK", "WidthsAreMaxima", "Aligned", "EmptySaysSo"]
+
+
+def table_model(emit: bool = True, max_rows: int = 2) -> Dict[str, Any]:
+    cells = {seq(""), seq("A"), seq("A L"), seq("longer"), seq(" x ")}
+    consts = dict(Cells=cells, MaxRows=max_rows, NCols=2, MinWidths={1, 4, 20}, EmitCases=emit)
+    return tlc.prepare("Table", consts, spec="Spec", invariants=TABLE_INVARIANTS + (["Emit"] if emit else []), properties=["Terminates"])
+
+
+def check_table(chk: Check):
+    from smpl_extract.info import InfoTable
+    res = chk.run_model(table_model(), label="design: column layout of a directory listing (every table of <= 2 rows x 2 columns over 5 cell texts)")
+    n = 0
+    for c in res.cases:
+        rows = [tuple("".join(cell) for cell in r) for r in c["rows"]]
+        want = ["".join(l) for l in c["lines"]]
+        got = InfoTable(("Item", "Ty"), rows, column_width=c["minw"]).to_string()
+        chk.evaluated(("table", repr(rows), c["minw"]), nontrivial=len(rows) > 0)
+        n += 1
+        ok = got == "".join(l + "\n" for l in want) if rows else got.strip() == want[0]
+        if ok:
+            chk.agree()
+        else:
+            chk.violation({"table": rows, "minw": c["minw"]},
+                          f"directory listing of {rows!r} (minimum column width {c['minw']}): the specification prints {want}, the tool printed {got.splitlines()}")
+    chk.extra["table_listing"] = {"tables": n}
